@@ -9,8 +9,13 @@
 
     and R' must equal R: sequence, topology, header ids, the multiset of emitted features
     (type, location, qualifiers), the secmet features themselves (type, name, location) and the structure
-    read through the accessors (numbers, parents, children, gene functions, qualifier objects).
-    Writing R' again must give the text of the first write (fixed point).
+    read through the accessors (numbers, parents, children, gene functions, qualifier objects, domain attributes).
+    Writing R' again must give the text of the first write (fixed point).  R itself was read from the GenBank-like
+    features of the spec, so its first write must also show the input genes where the input had them
+    (location, partial ends, codon_start), which is judged against the spec, not against the code.
+
+    Every difference of a case is collected in a fixed order; the first that no signature below describes is
+    raised (else the first), so a known deviation cannot hide an unknown one of the same case.
 """
 
 from __future__ import annotations
@@ -47,9 +52,9 @@ ASSUMPTIONS = [
     "cases on which create_candidate_clusters/create_regions raise are C05/C06 material: excluded and counted",
     "values whose GenBank text is rounded by design (e-values .2E, prepeptide score .2f, weights .1f) are generated "
     "at that precision",
+    "orders that only reflect the order of insertion (genes of an area, domains of a gene) are compared as sets",
 ]
 
-TAXON_KEY = "taxon"
 AREA_TYPES = {"protocluster", "proto_core", "cand_cluster", "region", "subregion"}
 
 
@@ -65,7 +70,6 @@ def _build(spec: dict):
 
 
 def _record_classes(record, classes: list) -> None:
-    from antismash.common.secmet.features.candidate_cluster import CandidateClusterKind  # noqa: F401
     for cand in record.get_candidate_clusters():
         classes.append(f"cand_{cand.kind}")
         if len(cand.location.parts) > 1:
@@ -204,8 +208,10 @@ def _differences(prefix: str, before: dict, after: dict, context: dict) -> list:
     if before["secmet_features"] != after["secmet_features"]:
         lost = _only(before["secmet_features"], after["secmet_features"])
         gained = _only(after["secmet_features"], before["secmet_features"])
-        fail("secmet_features", {"classes_differing": sorted({row[1] for row in lost + gained}),
-                                 "only_before": lost[:4], "only_after": gained[:4]})
+        for name in sorted({row[1] for row in lost + gained}):
+            fail("secmet_features", {"classes_differing": [name],
+                                     "only_before": [row for row in lost if row[1] == name][:4],
+                                     "only_after": [row for row in gained if row[1] == name][:4]})
     return found
 
 
@@ -730,6 +736,6 @@ def run(ctx) -> None:
     shards = ctx.pick(8, 16)
     ctx.extra["generated_spec_profile"] = _generator_profile(ctx.pick(150, 1500), ctx.seed)
     ctx.extra["bounds"] = {"record_length": [300, 5000], "genes": [1, 8], "protoclusters": [0, 5], "subregions": [0, 3]}
-    ctx.hyp("genbank", genbank_specs(), max_examples=ctx.pick(700, 24000), shards=shards)
-    ctx.hyp("json", rec.record_specs(), max_examples=ctx.pick(500, 16000), shards=shards)
-    ctx.hyp("results", results_specs(), max_examples=ctx.pick(300, 8000), shards=shards)
+    ctx.hyp("genbank", genbank_specs(), max_examples=ctx.pick(700, 36000), shards=shards)
+    ctx.hyp("json", rec.record_specs(), max_examples=ctx.pick(500, 24000), shards=shards)
+    ctx.hyp("results", results_specs(), max_examples=ctx.pick(300, 12000), shards=shards)
